@@ -85,9 +85,14 @@ func main() {
 	var results []genResult
 	var pkgs []string
 
+	var emitFD func(corpus, id, line string, fd *descriptorpb.FileDescriptorProto)
 	emit := func(corpus string, s *vschema.Schema) {
 		fileName := "verifcorpus/" + s.ID + "/" + s.ID + ".proto"
-		fd := s.ToFile(fileName)
+		emitFD(corpus, s.ID, s.Line(), s.ToFile(fileName))
+	}
+	emitFD = func(corpus, id, line string, fd *descriptorpb.FileDescriptorProto) {
+		fileName := fd.GetName()
+		s := &struct{ ID string }{ID: id}
 		// dependencies first (topological order): corpus files already emitted, then registered files
 		var files []*descriptorpb.FileDescriptorProto
 		seen := map[string]bool{}
@@ -125,7 +130,7 @@ func main() {
 			Parameter:      proto.String("features=protoc+fast,paths=source_relative"),
 			ProtoFile:      files,
 		}
-		res := genResult{ID: s.ID, Corpus: corpus, Line: s.Line()}
+		res := genResult{ID: s.ID, Corpus: corpus, Line: line}
 		reqBytes, _ := proto.Marshal(req)
 		res.ReqPath = filepath.Join(corpusDir, s.ID+".req.bin")
 		os.WriteFile(res.ReqPath, reqBytes, 0o644)
@@ -161,6 +166,7 @@ func main() {
 	for _, s := range vschema.Matrix(*full) {
 		emit("matrix", s)
 	}
+	emitFD("nested", "nest", "", vschema.Nested())
 	for _, s := range vschema.Graph() {
 		emit("graph", s)
 	}
